@@ -1034,6 +1034,74 @@ def mon_no_partial(steps, meta):
     return None
 
 
+def _disturbed(steps):
+    """(index, step) of the operation that ran under the oracle"""
+    seen = False
+    for i, st in enumerate(steps):
+        if st.op == "oracle":
+            seen = True
+        elif seen and st.op in HANDLER_OPS:
+            return i, st
+    return None, None
+
+
+def mon_partial_snapshot(steps, meta):
+    """C10: 'no partial version in the store' for project snapshots: when the disturbed pass reported an error, no
+    snapshot directory that did not exist before may stay in the project store (the entry, still pending, will be
+    snapshotted again under the next free name, and the partial one would pass for a snapshot)"""
+    i, st = _disturbed(steps)
+    if st is None or st.result != "error":
+        return None
+    pre = next((x.dump for x in reversed(steps[:i]) if x.dump is not None), None)
+    after = next((x.dump for x in steps[i + 1:] if x.dump is not None), None)
+    if pre is None or after is None:
+        return None
+    for p, e in after.items():
+        if e[0] == "dir" and p not in pre and re.match(r"^/k/projects/[^/]+/[^/]+$", p):
+            root = PROJECTS.get(p.split("/")[3])
+            lacks = _snapshot_lacks(after, p, root) if root else []
+            if not lacks:
+                continue      # complete (the failure came after the walk): a duplicate after the restart, not a partial one
+            inside = sorted(q[len(p) + 1:] for q in after if q.startswith(p + "/"))
+            return ("the pass failed (%s at call %s '%s', error reported) but the snapshot directory %s it was filling stays in the project store with %s (lacking %s)"
+                    % (meta.get("errno"), meta.get("k"), meta.get("callline"), p, inside or "nothing in it", lacks))
+    return None
+
+
+def _snapshot_lacks(d, sd, root):
+    """members of the project at `root` that have a stored version and still exist but are not in the snapshot sd"""
+    vroot = "/k/store/%s/" % root[len("/w/"):]
+    members = sorted(set(q[len(vroot):].rsplit("/", 1)[0] for q, e in d.items() if q.startswith(vroot) and e[0] == "file"))
+    return [m for m in members if (d.get(root + "/" + m) or ("",))[0] == "file" and (sd + "/" + m) not in d]
+
+
+def mon_snapshot_members(steps, meta):
+    """C10: 'either still completes the operation or reports an error': when the disturbed pass does NOT report an
+    error and a project entry left the queue in it, the snapshot it took holds every member of the project that has a
+    stored version and still exists"""
+    i, st = _disturbed(steps)
+    if st is None or st.result in ("error", "crashed", None):
+        return None
+    pre = next((x.dump for x in reversed(steps[:i]) if x.dump is not None), None)
+    after = next((x.dump for x in steps[i + 1:] if x.dump is not None), None)
+    if pre is None or after is None:
+        return None
+    for (_, num, path, m, mt) in queue_of(pre):
+        if not (m & 1) or any(x[2] == path and x[3] & 1 for x in queue_of(after)):
+            continue
+        name = path.rstrip("/").rsplit("/", 1)[1]
+        root = PROJECTS.get(name)
+        if root is None or root not in after or after[root][0] != "dir":
+            continue
+        snaps = [p for p, e in after.items() if e[0] == "dir" and p not in pre and re.match(r"^/k/projects/%s/[^/]+$" % re.escape(name), p)]
+        for sd in snaps:
+            for mem in _snapshot_lacks(after, sd, root):
+                if True:
+                    return ("the pass did not report an error (%s injected at call %s '%s') and the project entry %s left the queue, but its snapshot %s lacks the member %s, "
+                            "which has a stored version and still exists" % (meta.get("errno"), meta.get("k"), meta.get("callline"), name, sd, mem))
+    return None
+
+
 def mon_fault_reported(steps, meta):
     """C10: a disturbed operation either completes or reports an error; it never crashes the daemon"""
     for st in steps:
@@ -1067,6 +1135,27 @@ def mon_expected_handled(steps, meta):
     return None
 
 
+def mon_completed_exact(steps, meta):
+    """C10: 'either still completes the operation or reports an error': when the disturbed operation does not end in
+    an error, what it left must be what a completed operation leaves - for a history path the versions concatenate
+    to the file up to the remembered position (no slice twice, none missing, position not rewound)"""
+    disturbed = False
+    judge = False
+    for i, st in enumerate(steps):
+        if st.op == "oracle":
+            disturbed = True
+            continue
+        if disturbed and st.op in HANDLER_OPS and not judge:
+            if st.result in ("error", "crashed", None):
+                return None
+            judge = True
+            continue
+        if judge and st.dump is not None:
+            r = mon_history([st], meta)
+            return ("the operation under a failing call (%s %s) did not report an error, but: %s" % (meta.get("callline", ""), meta.get("errno", ""), r)) if r else None
+    return None
+
+
 def mon_resources(steps, meta):
     """C20: with a handler loaded exactly two descriptors are open (queue directory, journal) after every
     operation, none after release"""
@@ -1088,6 +1177,7 @@ MONITORS.update({
     "queue_form": mon_queue_form, "journal": mon_journal, "faithful": mon_faithful, "history": mon_history,
     "bursts": mon_bursts, "projects": mon_projects, "recovery": mon_recovery, "no_partial": mon_no_partial,
     "fault_reported": mon_fault_reported, "resources": mon_resources, "expected_handled": mon_expected_handled,
+    "completed_exact": mon_completed_exact, "partial_snapshot": mon_partial_snapshot, "snapshot_members": mon_snapshot_members,
 })
 
 
